@@ -24,6 +24,8 @@ from . import machine as MC
 from . import families as FAM
 from spec import encodings as ENC
 from spec import stepspec as SS
+from spec import exceptions as EXC
+from spec import psr as PSR
 
 ASSUMPTIONS = [
     'L5 abstraction: memory accessors are uninterpreted functions (MemRead/MemWrite/MemFault) of an abstract memory token; '
@@ -67,7 +69,7 @@ def it_advance_spec(it):
     return ite(bits(it, 2, 0) == 0, 0, (it & 0xE0) | ((it << 1) & 0x1F))
 
 
-def make_unit(iset, cube_name, cube_pred, memarch='PMSA', nregions=1, props=('C18', 'C10', 'C04', 'C05', 'C19', 'C01', 'C02', 'C03', 'C06', 'C07', 'C09', 'C12')):
+def make_unit(iset, cube_name, cube_pred, memarch='PMSA', nregions=1, props=('C18', 'C10', 'C04', 'C05', 'C19', 'C01', 'C02', 'C03', 'C06', 'C07', 'C09', 'C12', 'C14')):
     m = registry.mods()
     A = m.arm_v6.ArmV6
     Rg = m.registers.Registers
@@ -255,6 +257,27 @@ def make_unit(iset, cube_name, cube_pred, memarch='PMSA', nregions=1, props=('C1
                 ob = eng.oblige('post.unpred', '%s: not executed normally where the architecture says UNDEFINED' % tag,
                                 lor(lnot(r.match(instr)), lnot(s_undef)))
                 ob.props = [dprop]
+        # ---- abort clause (C02/C14): a data abort raised by the instruction's own access leaves the registers as
+        # they were (no data transferred, no base write-back) and enters the abort handler architecturally
+        if rows and events == ['take_data_abort_exception'] and mem.fault_info is not None and not unpred_possible(unpred):
+            fam_ = rows[0].family or fam
+            if fam_ == 'C02':
+                info = mem.fault_info
+                st = dict(init)
+                for nm in ABORT_REGS:
+                    st[nm] = info[nm]
+                EXC.take_data_abort(st, info['is_align'], info['second'])
+                passed_c, cu_c = PSR.condition_passed('arm' if iset == 'arm' else 'thumb', instr, oplen, init['cpsr'])
+                dual_store = kname.startswith('Strd')
+                named = []
+                for k, v in final.items():
+                    if k in SCRATCH:
+                        continue
+                    named.append((k, lor(unpred, cu_c, values_eq(v, st[k]))))
+                if not dual_store:
+                    named.append(('mem', lor(unpred, sym.SymBool(mem.term == mem.init))))
+                ob = eng.oblige_all('post.abort', '%s: on a data abort no register is loaded or written back and the abort entry is architectural' % tag, named)
+                ob.props = ['C02', 'C14']
         return None
 
     def replay(inputs, ob):
@@ -264,6 +287,10 @@ def make_unit(iset, cube_name, cube_pred, memarch='PMSA', nregions=1, props=('C1
     return Unit(uid, list(props), symbolic, replay,
                 {'contracts': {}, 'merge_calls': merge_set(), 'max_paths': 60000},
                 meta={'cube': cube_name, 'iset': iset})
+
+
+def unpred_possible(u):
+    return u is True
 
 
 def callsite_prop(qn, fam):
